@@ -101,6 +101,15 @@ def write_evidence(prop, tier, seed, results, kani_results, violations, known_hi
         "failed_obligations": [v["obligation"] for v in violations],
         "notes": extra_notes,
     }
+    if spec.get("level") == "exploration":
+        # the deciding evidence of this check is the bounded search on the real crate (labelled bounded, not a proof)
+        cov["evaluations"] = sum(b.get("cases", 0) for b in bounded)
+        cov["distinct_nontrivial"] = sum(b.get("distinct_nontrivial", 0) for b in bounded)
+        cov["rule"] = ("cases are generated by the searchers named in bounded_stand_ins (bound stated there) from VERIF_SEED; a case is a distinct request "
+                       "to the replay driver (distinct text); it is non-trivial when the real crate answers with something other than plain acceptance "
+                       "(a rendered error message here), counted by the driver wrapper")
+        cov["samples"] = [s for b in bounded for s in b.get("samples", [])][:5] or cov["samples"]
+        cov["exhaustive"] = False
     ev = {
         "property_id": prop,
         "tier": tier,
